@@ -389,6 +389,15 @@ func VH_C04_RefResponse(apiKey, version, shape int) {
 	vhAssert(id == corr, "reference-response-correlation-id")
 	vhAssert(fc.off-conn.buffer.Buffered() == len(ref), "reference-response-consumes-exactly-one-frame")
 	vhAssert(vhRefEq(reflect.ValueOf(got).Elem(), reflect.ValueOf(msg).Elem(), version), "reference-response-decodes-to-the-encoded-values")
+	// the same through a plain io.Reader (ReadResponse is a public entry point; a reader without a Discard method
+	// takes other paths in the decoder)
+	plain := bytes.NewReader(append(append([]byte{}, ref...), 0xAA, 0xBB))
+	id2, got2, err2 := ReadResponse(plain, ApiKey(apiKey), int16(version))
+	vhAssert(err2 == nil && id2 == corr, "reference-response-decodes-from-a-plain-reader")
+	if err2 == nil {
+		vhAssert(plain.Len() == 2, "plain-reader-consumes-exactly-one-frame")
+		vhAssert(vhRefEq(reflect.ValueOf(got2).Elem(), reflect.ValueOf(msg).Elem(), version), "plain-reader-decodes-to-the-encoded-values")
+	}
 	vhReach("c04-ref-response")
 }
 
